@@ -156,7 +156,7 @@ def t_source(m, name, type_):
 
 def t_section(m, name, type_):
     return {"$k": "Section", "id": {"$id": m.new_id()}, "name": name, "type": type_, "definition": None,
-            "repository": None, "reference": None, "props": [], "sections": []}
+            "repository": None, "reference": None, "link": None, "props": [], "sections": []}
 
 
 def pdtype(v):
@@ -242,6 +242,8 @@ def impl_apply(s, op, h=None):
             del obj.metadata
         else:
             obj.metadata = s.resolve(op[2], h)
+    elif kind == "set_link":
+        s.resolve(path, h).link = s.resolve(op[2], h)
     elif kind == "set_ref":   # multi tag positions/extents, feature data
         obj = s.resolve(path, h)
         blk = s.resolve(path[:2], h)
@@ -266,6 +268,10 @@ def impl_apply(s, op, h=None):
             sel = cont[sel]
         elif how == "id":
             sel = cont[sel].id
+        elif how == "data-name":
+            sel = cont[sel].data.name
+        elif how == "data-id":
+            sel = cont[sel].data.id
         del cont[sel]
         s.forget(path + [op[2], op[4]] if not isinstance(op[4], int) else path)
     elif kind == "write":
@@ -345,6 +351,8 @@ def model_apply(m, op):
     elif kind == "set_meta":
         obj = m.resolve(path)
         obj["metadata"] = None if op[2] is None else mkref(m.resolve(op[2]))
+    elif kind == "set_link":
+        m.resolve(path)["link"] = mkref(m.resolve(op[2]))
     elif kind == "set_ref":
         obj = m.resolve(path)
         blk = m.resolve(path[:2])
@@ -561,6 +569,10 @@ def _enabled(m, cfg):
                 for nm in names:
                     ops.append(["create", path, "sections", nm])
                     ops.append(["create", path, "props", nm, [1, 2]])
+            if want("seclink"):
+                for sp in secs[:cfg.get("nsecs", 2)]:
+                    if sp != path:
+                        ops.append(["set_link", path, sp])
             if want("attr"):
                 for v in V(cfg.get("strs", STRS)[:3]):
                     ops.append(["set", path, "repository", v])
@@ -601,7 +613,7 @@ def _enabled(m, cfg):
                 for v in V((None, "mV", "m u V", "")):
                     ops.append(["set", path, "unit", v])
                 if n["$data"].get("$arr") != "str":
-                    for v in V((None, 0, 2.5)):
+                    for v in V((None, 0, 3, 2.5)):
                         ops.append(["set", path, "expansion_origin", v])
                     for v in V(([], [1.0, 2.0], None)):
                         ops.append(["set", path, "polynom_coefficients", v])
@@ -619,9 +631,12 @@ def _enabled(m, cfg):
                     ops.append(["set", dp, "label", None])
                     if d["$k"] == "SampledDimension":
                         ops.append(["set", dp, "unit", "s"])
-                        ops.append(["set", dp, "offset", 3])
+                        ops.append(["set", dp, "offset", 0.75])
                         ops.append(["set", dp, "offset", None])
-                        ops.append(["set", dp, "sampling_interval", 4.0])
+                        ops.append(["set", dp, "sampling_interval", 0.25])
+                        if not thin:
+                            ops.append(["set", dp, "offset", 3])
+                            ops.append(["set", dp, "sampling_interval", 4])
                     if d["$k"] == "RangeDimension":
                         ops.append(["set", dp, "unit", "ms"])
                         ops.append(["set", dp, "ticks", [0.0, 0.5]])
@@ -659,9 +674,16 @@ def _enabled(m, cfg):
                 for i, r in enumerate(n["sources"]):
                     ops.append(["unlink", path, "sources", "idx", i])
                 if k == "MultiTag":
-                    for a in blk["data_arrays"][:cfg.get("narr", 3)]:
-                        ops.append(["set_ref", path, "positions", a["name"]])
-                        ops.append(["set_ref", path, "extents", a["name"]])
+                    cands = [a["name"] for a in blk["data_arrays"][:cfg.get("narr", 3)]]
+                    for key in ("positions", "extents"):     # the arrays already linked: same array in both roles
+                        cur = n.get(key)
+                        if isinstance(cur, dict) and "$ref" in cur:
+                            for a in blk["data_arrays"]:
+                                if a["id"]["$id"] == cur["$ref"] and a["name"] not in cands:
+                                    cands.append(a["name"])
+                    for an in cands:
+                        ops.append(["set_ref", path, "positions", an])
+                        ops.append(["set_ref", path, "extents", an])
                     if n["extents"] is not None:
                         ops.append(["set_ref", path, "extents", None])
             if want("feature"):
@@ -676,6 +698,11 @@ def _enabled(m, cfg):
                         ops.append(["set_ref", fp, "data", a["name"]])
                     if want("delete"):
                         ops.append(["delete", path, "features", "idx", i])
+                        same = [x for x in n["features"] if x["data"] == ft["data"]]
+                        if cfg.get("delete_modes") and len(same) == 1 and "$ref" in ft["data"]:
+                            ops.append(["delete", path, "features", "data-name", i])
+                            ops.append(["delete", path, "features", "data-id", i])
+                            ops.append(["delete", path, "features", "id", i])
         if k == "Group" and want("link"):
             blkpath = path[:2]
             blk = m.resolve(blkpath)
